@@ -8,7 +8,7 @@ from vlib.common import COQ
 
 STATIC = ["C14S/PyList.v", "C14S/StackSpec.v", "C14S/StackSpecProofs.v", "C14S/Spill.v", "C14S/SpillProofs.v", "C14S/SpillInv.v",
           "C14S/ReorderProofs.v", "C14S/ReorderFull.v", "C14S/PopProofs.v", "C14S/CleanProofs.v", "C14S/EmitProofs.v",
-          "C14S/JoinProofs.v", "C14S/CallProofs.v", "C14S/FrameProofs.v", "C14S/Script.v"]
+          "C14S/JoinProofs.v", "C14S/CallProofs.v", "C14S/FrameProofs.v", "C14S/FmpProofs.v", "C14S/Script.v"]
 PER_RUN = ["C14S/GenStackModel.v", "C14S/TieStackModel.v", "C14S/PropsStack.v"]
 IMPORTS = "From Verif Require Import Base.PyInt C14S.PyList C14S.StackSpec C14S.Spill C14S.Script.\n"
 NEXT0 = 4096
